@@ -140,6 +140,10 @@ def build_target(spec, values):
         dg = Distribution("dg", torch.distributions.Gamma, r,
                           {"concentration": Parameter("c", T(spec["conc"])), "rate": Parameter("rt", T(spec["rate"]))},
                           validate_args=False)  # outside the support: nan (the degenerate branch), not a raise
+        if "alpha2" in spec:
+            w2 = Parameter("w2", T(values[2]))
+            dd2 = Distribution("dd2", torch.distributions.Dirichlet, w2, {"concentration": Parameter("a2", T(spec["alpha2"]))})
+            return [w, r, w2], JointDistributionModel("joint", [dd, dg, dd2])
         return [w, r], JointDistributionModel("joint", [dd, dg])
     if kind == "skygrid":
         # skygrid: log population sizes `field` (GMRF prior with precision tau, Gamma prior on tau), piecewise
@@ -177,6 +181,12 @@ def build_operators(spec_ops, params, joint):
     ops = []
     for i, o in enumerate(spec_ops):
         ps = [params[k] for k in o["pidx"]]
+        if o.get("via") == "json":
+            ops.append(build_from_json(torch, i, o, ps, joint))
+            continue
+        if o["kind"] == "stub":
+            ops.append(make_failing_operator(torch)(f"op{i}", ps, o["weight"], o["sentinels"]))
+            continue
         kw = {"disable_adaptation": not o["adapt"]}
         if "window_len" in o:
             kw["acceptance_window_length"] = o["window_len"]
@@ -197,12 +207,95 @@ def build_operators(spec_ops, params, joint):
             inner = LeapfrogIntegrator(f"lf{i}", o["steps"], o["scale"])
             integ = IntegProxy(inner)
             mass = Parameter(f"mass{i}", torch.tensor(o["mass"], dtype=torch.float64))
-            op = HMCOperator(f"op{i}", joint, ps, integ, mass, o["weight"], o["target"],
-                             build_adaptors(o.get("adaptors", []), inner, ps, mass, i), **kw)
+            if o.get("adaptors"):
+                op = HMCOperator(f"op{i}", joint, ps, integ, mass, o["weight"], o["target"],
+                                 build_adaptors(o["adaptors"], inner, ps, mass, i), **kw)
+            else:
+                # the constructor's own default for `adaptors`
+                op = HMCOperator(f"op{i}", joint, ps, integ, mass, weight=o["weight"],
+                                 target_acceptance_probability=o["target"], **kw)
         else:
             raise ValueError(o["kind"])
         ops.append(op)
     return ops
+
+
+def build_from_json(torch, i, o, ps, joint):
+    """the operator built by its class's from_json from a dictionary (defaults of the JSON layer apply)"""
+    from torchtree.inference.hmc.operator import HMCOperator
+    from torchtree.inference.mcmc.operator import DirichletOperator, ScalerOperator, SlidingWindowOperator
+
+    dic = {p_.id: p_ for p_ in ps}
+    dic[getattr(joint, "id", "joint")] = joint
+    data = {"id": f"op{i}", "parameters": [p_.id for p_ in ps], "weight": o["weight"],
+            "target_acceptance_probability": o["target"], "disable_adaptation": not o["adapt"]}
+    if o["kind"] == "scaler":
+        data["scaler"] = o["scale"]
+        return ScalerOperator.from_json(data, dic)
+    if o["kind"] == "window":
+        data["width"] = o["scale"]
+        return SlidingWindowOperator.from_json(data, dic)
+    if o["kind"] == "dirichlet":
+        data["scaler"] = o["scale"]
+        return DirichletOperator.from_json(data, dic)
+    if o["kind"] == "hmc":
+        data.update({"joint": getattr(joint, "id", "joint"),
+                     "integrator": {"id": f"lf{i}", "type": "LeapfrogIntegrator", "steps": o["steps"], "step_size": o["scale"]},
+                     "mass_matrix": {"id": f"mass{i}", "type": "Parameter", "tensor": o["mass"], "dtype": "torch.float64"}})
+        op = HMCOperator.from_json(data, dic)
+        op._integrator = IntegProxy(op._integrator)
+        return op
+    raise ValueError(o["kind"])
+
+
+def make_failing_operator(torch):
+    from torchtree.inference.mcmc.operator import MCMCOperator
+
+    class FailingOperator(MCMCOperator):
+        """harness-side operator: scribbles over its parameters and then reports 'no proposal' with the non-finite
+        constants the shipped operators use for that (read from their source by tr_runorder)"""
+
+        def __init__(self, id_, parameters, weight, sentinels):
+            super().__init__(id_, parameters, weight, 0.24, disable_adaptation=True)
+            self._sentinels, self._k = list(sentinels), 0
+
+        tuning_parameter = property(lambda self: 1.0)
+        adaptable_parameter = property(lambda self: 0.0)
+
+        def set_adaptable_parameter(self, value):
+            pass
+
+        def _step(self):
+            for p_ in self.parameters:
+                p_.tensor = p_.tensor + 1.0 + 0.5 * self._k
+            v = self._sentinels[self._k % len(self._sentinels)]
+            self._k += 1
+            return torch.tensor(float(v))
+
+        def _state_dict(self):
+            return {}
+
+        def _load_state_dict(self, state_dict):
+            pass
+
+        @classmethod
+        def from_json(cls, data, dic):
+            raise NotImplementedError
+
+    return FailingOperator
+
+
+def tunables(op):
+    """everything tune() of an operator may legitimately change on ITS OWN operator"""
+    out = {"adapt_count": op._adapt_count}
+    for a in ("_scaler", "_width"):
+        if hasattr(op, a):
+            out[a] = getattr(op, a)
+    if hasattr(op, "_integrator"):
+        out["step_size"] = float(op._integrator.step_size)
+        out["adaptors"] = [adaptor_state(a) for a in op._adaptors]
+        out["mass"] = op._mass_matrix.tensor.detach().clone().tolist()
+    return out
 
 
 def build_adaptors(specs, integrator, ps, mass, i):
@@ -267,6 +360,8 @@ class IntegProxy:
 
 
 def scale_of(op):
+    if type(op).__name__ == "FailingOperator":
+        return 1.0
     if hasattr(op, "_integrator"):
         return float(op._integrator.step_size)
     if hasattr(op, "_width"):
@@ -440,6 +535,7 @@ def execute_run(cfg, tape_seed):
             cur.update({"in_iter": True, "op": idx, "before": snap(), "scale_before": scale_of(op),
                         "ev0": len(sc.events) - 1,  # the Categorical draw belongs to this iteration
                         "ret0": len(op._integrator.returned) if is_hmc else 0})
+            cur["n_accept_before"] = op._accept
             cur["masses"] = {j: o2._mass_matrix.tensor.detach().clone().tolist()
                              for j, o2 in enumerate(ops) if hasattr(o2, "_mass_matrix")}
             if is_hmc:
@@ -474,7 +570,11 @@ def execute_run(cfg, tape_seed):
             if is_hmc and op._adaptors:
                 cur["adaptors_before"] = [adaptor_state(a) for a in op._adaptors]
                 cur["branch"] = branch_probe(op._adaptors, rng2, sample, accepted)
+            others0 = [tunables(o2) for o2 in ops]
             r = o_tune(acceptance_prob, sample=sample, accepted=accepted)
+            others1 = [tunables(o2) for o2 in ops]
+            cur["cross_tune"] = [{"operator": j, "before": others0[j], "after": others1[j]}
+                                 for j in range(len(ops)) if j != idx and others0[j] != others1[j]]
             if is_hmc and op._adaptors:
                 cur["adaptors_after"] = [adaptor_state(a) for a in op._adaptors]
                 cur["mass_after"] = op._mass_matrix.tensor.detach().clone().tolist()
@@ -531,7 +631,7 @@ def enc_machine(cfg, state, lj, epoch, acc_total, opstates, masses=None, modes=N
     w += [f2h(lj), str(epoch), str(acc_total), str(len(cfg["ops"]))]
     for oi_, (o, st) in enumerate(zip(cfg["ops"], opstates)):
         w += [o["kind"], str(len(o["pidx"]))] + [str(k) for k in o["pidx"]]
-        w += [f2h(o["target"]), "0" if o["adapt"] else "1", str(o.get("window_len", 100)), f2h(st["scale"]),
+        w += [f2h(o["target"]), "0" if o["adapt"] else "1", str(0 if (o.get("via") == "json" and o["kind"] != "hmc") else o.get("window_len", 100)), f2h(st["scale"]),
               str(st["adapt_count"]), str(st["accept"]), str(st["reject"]), str(len(st["window"]))]
         w += [str(x) for x in st["window"]]
         if o["kind"] == "block":
@@ -865,6 +965,8 @@ def block_true_hastings(o, r):
         return 0.5 * logdet - 0.5 * e @ P @ e - 0.5 * d * math.log(2 * math.pi)
 
     mf, mb = np.array(r["modes"][0]), np.array(r["modes"][1])
+    if not (np.all(np.isfinite(mf)) and np.all(np.isfinite(mb))) or max(np.abs(mf).max(), np.abs(mb).max()) > 30:
+        return None, None  # the mode finder diverged: exp(-mode) under/overflows, nothing to compare numerically
     return float(logn(g0, mb, Q(t0)) - logn(g1, mf, Q(t1))), None
 
 
@@ -873,6 +975,8 @@ def true_hastings(cfg, r):
     observed states and draws only. -> (value or None if not applicable, problem or None)"""
     o = cfg["ops"][r["op"]]
     kind = o["kind"]
+    if kind == "stub":
+        return None, None
     b, p = r["before"], r["proposed"]
     diffs = [(i, j) for i in range(len(b)) for j in range(len(b[i])) if b[i][j] != p[i][j]]
     own = set(o["pidx"])
@@ -883,7 +987,7 @@ def true_hastings(cfg, r):
         if len(diffs) > 1:
             return None, "scaler changed more than one coordinate"
         if not diffs:
-            return 0.0, None
+            return None, None  # the scaled coordinate is exactly 0 (or s = 1): the multiplier cannot be read off
         i, j = diffs[0]
         s = p[i][j] / b[i][j]
         if not (a * (1 - 1e-12) <= s <= (1 / a) * (1 + 1e-12)):
@@ -997,7 +1101,7 @@ def check_records(ck: Check, cfg, res, found, label):
                                                      "returned": r["hr"], "true": th}, cfg, it))
         # 3. accept rule
         if degenerate:
-            if r["accepted"]:
+            if r["accepted"] and math.isfinite(r["hr"]):
                 found.append((f"{kind}:degenerate-accepted", {"clause": "degenerate proposal accepted"}, cfg, it))
         elif used_u and u is not None:
             la = (lp - carried) + r["hr"]
@@ -1010,6 +1114,29 @@ def check_records(ck: Check, cfg, res, found, label):
             if not close(r["acc_prob"], prob_acc, 1e-9):
                 found.append((f"{kind}:acceptance-probability", {"clause": "acceptance probability handed to tune",
                                                                  "impl": r["acc_prob"], "want": prob_acc}, cfg, it))
+        # 3b. an operator that reported failure (non-finite return value) made no proposal: nothing may change,
+        #     nothing may be counted as accepted, tune must not be fed a positive acceptance
+        if not math.isfinite(r["hr"]):
+            ck.bucket(f"oracle/operator-reported-failure/{kind}")
+            probs = []
+            if r["accepted"]:
+                probs.append("counted as accepted")
+            if r["after"] != r["before"]:
+                probs.append("a parameter changed")
+            if r["acc_prob"] != 0.0:
+                probs.append(f"acceptance probability {r['acc_prob']} handed to tune")
+            if r["n_accept"] != r.get("n_accept_before", r["n_accept"]):
+                probs.append("operator's accept counter advanced")
+            if probs:
+                found.append((f"{kind}:failed-proposal-not-rejected",
+                              {"clause": "the operator reported that it has no proposal (returned " + str(r["hr"]) + ") but: "
+                                         + "; ".join(probs), "before": r["before"], "after": r["after"],
+                               "acc_prob": r["acc_prob"], "accepted": r["accepted"]}, cfg, it))
+        # 3c. tune() of the selected operator touches no other operator
+        if r.get("cross_tune"):
+            found.append(("MCMC.run:tune-changes-other-operator",
+                          {"clause": "tune() of operator %d (%s) changed the tunables of another operator" % (r["op"], kind),
+                           "changed": r["cross_tune"][:2]}, cfg, it))
         # 4. rejection restores bit-identically
         if not r["accepted"] and r["after"] != r["before"]:
             found.append((f"{kind}:reject-restores", {"clause": "a rejected move left a parameter changed",
@@ -1069,7 +1196,7 @@ def check_records(ck: Check, cfg, res, found, label):
                                    "what": bp["what"], "step_low": bp["low"], "step_high": bp["high"],
                                    "state": bp["state"]}, cfg, it))
         # 6. tuning direction
-        if kind == "hmc" and o.get("adaptors"):
+        if (kind == "hmc" and o.get("adaptors")) or kind == "stub":
             pass
         elif o["adapt"]:
             b0, b1 = boldness(kind, r["scale_before"]), boldness(kind, r["scale_after"])
@@ -1090,6 +1217,8 @@ def check_records(ck: Check, cfg, res, found, label):
 
 
 def op_class(kind):
+    if kind == "stub":
+        return "FailingOperator(harness)"
     return {"scaler": "ScalerOperator", "window": "SlidingWindowOperator", "dirichlet": "DirichletOperator",
             "hmc": "HMCOperator", "block": "GMRFPiecewiseCoalescentBlockUpdatingOperator"}[kind]
 
@@ -1333,8 +1462,54 @@ def gen_cfg(rng, family, adapt, iterations):
         t = {"kind": "skygrid", "sampling": sampling, "coalescent": coal_t, "cutoff": coal_t[-1] * rng.uniform(0.6, 1.1),
              "conc": [rng.uniform(1.0, 3.0)], "rate": [rng.uniform(0.5, 2.0)],
              "init": [[rng.uniform(-1, 1) for _ in range(d)], [rng.uniform(0.5, 3.0)]]}
+        if rng.random() < 0.35:
+            # a start where the mode finder diverges and the Cholesky factorisation raises: the operator reports failure
+            t["init"][0] = [rng.uniform(8, 11) for _ in range(d)]
         ops = [op("block", [0, 1], rng.choice([1.5, 2.0, 4.0, 1.0]), weight=3.0, target=rng.choice([0.24, 0.5])),
                op("scaler", [1], rng.uniform(0.4, 0.9)), op("window", [0], rng.uniform(0.2, 1.0))]
+        exact = False
+    elif family == "multi":
+        # two (or more) operators of every class in ONE run, built through the constructors' own defaults or through
+        # from_json: tune() of one operator must leave every other operator's tunables alone
+        via = rng.choice(["ctor", "json"])
+        if rng.random() < 0.5:
+            sizes = [1, 1, 2]
+            n = 4
+            L = [[(1 if i == j else (rng.choice([-1, 0, 1]) if j < i else 0)) for j in range(n)] for i in range(n)]
+            G = [[float(sum(L[i][k] * L[j][k] for k in range(n))) for j in range(n)] for i in range(n)]
+            t = {"kind": "quad", "G": G, "b": [float(rng.randint(-2, 2)) for _ in range(n)],
+                 "init": [[rng.randint(-4, 4) / 4 for _ in range(sz)] for sz in sizes]}
+            ops = []
+            for k_ in (0, 1, 2):
+                sz = sizes[k_]
+                ops.append(op("hmc", [k_], rng.choice([0.1, 0.25, 0.5]), steps=rng.randint(1, 4),
+                              mass=[rng.choice([0.5, 1.0, 2.0]) for _ in range(sz)], G=G, b=t["b"], target=0.8, adapt=True))
+            ops += [op("window", [0], rng.uniform(0.3, 1.5), adapt=True), op("window", [2], rng.uniform(0.3, 1.5), adapt=True),
+                    op("scaler", [1], rng.uniform(0.4, 0.9), adapt=True), op("scaler", [2], rng.uniform(0.4, 0.9), adapt=True)]
+        else:
+            k1, k2 = rng.randint(2, 4), rng.randint(2, 3)
+            g1 = [rng.gammavariate(2.0, 1.0) + 0.1 for _ in range(k1)]
+            g2 = [rng.gammavariate(2.0, 1.0) + 0.1 for _ in range(k2)]
+            t = {"kind": "dirichlet", "alpha": [rng.uniform(0.8, 4) for _ in range(k1)], "alpha2": [rng.uniform(0.8, 4) for _ in range(k2)],
+                 "conc": [rng.uniform(1.5, 4)], "rate": [rng.uniform(0.5, 3)],
+                 "init": [[x / sum(g1) for x in g1], [rng.uniform(0.3, 2)], [x / sum(g2) for x in g2]]}
+            ops = [op("dirichlet", [0], rng.choice([5.0, 20.0, 100.0]), adapt=True), op("dirichlet", [2], rng.choice([5.0, 50.0]), adapt=True),
+                   op("scaler", [1], rng.uniform(0.3, 0.9), adapt=True), op("scaler", [1], rng.uniform(0.3, 0.9), adapt=True),
+                   op("window", [1], rng.uniform(0.05, 0.3), adapt=True), op("window", [1], rng.uniform(0.05, 0.3), adapt=True)]
+        for o_ in ops:
+            o_["via"] = via
+            if via == "json":
+                o_.pop("window_len", None)
+        iterations = max(iterations, 50)
+        exact = False
+    elif family == "fail":
+        # an operator that never has a proposal (harness-side, returns the constants the shipped operators use for that)
+        n = rng.randint(1, 2)
+        t = {"kind": "normal", "loc": [0.0] * n, "scale": [1.0] * n, "init": [[rng.uniform(-1, 1) for _ in range(n)]]}
+        sent = sorted({{"posInf": "inf", "negInf": "-inf", "nan": "nan"}[x] for _c, v in tr_runorder.operator_failure_returns() for x in v})
+        ops = [op("window", [0], rng.uniform(0.3, 1.5)), {"kind": "stub", "pidx": [0], "weight": 1.0, "target": 0.24, "scale": 1.0,
+                                                           "adapt": False, "sentinels": sent or ["inf"]},
+               op("scaler", [0], rng.uniform(0.4, 0.9))]
         exact = False
     elif family == "hmc_adapt":
         # HMC with the adaptors of hmc/adaptation.py, run past the first mass-matrix re-estimation
@@ -1401,6 +1576,7 @@ def gen_cfg(rng, family, adapt, iterations):
         exact = True
     any_adapt = any(o["adapt"] or o.get("adaptors") for o in ops)
     return {"family": family, "target": t, "ops": ops, "iterations": iterations,
+            "oracle_only": any(o["kind"] == "stub" for o in ops),
             # bit-exact agreement is demanded when only elementwise IEEE operations are on the state path: no
             # adaptation (exp/log in the scale) and no HMC (torch's matmul sums in its own order once the state is
             # no longer dyadic; bit-exactness of the integrator is C16's tie)
@@ -1458,10 +1634,11 @@ def run(ck: Check):
             c = json.loads(f.read_text())
             if "cfg" in c:
                 runs.append((c["cfg"], c["tape_seed"], "corpus/" + f.stem))
-        fams = ["normal", "gamma_exp", "dirichlet", "quad", "quad_nan", "hmc_adapt", "hmc_adapt", "edge", "skygrid", "skygrid"]
+        fams = ["normal", "gamma_exp", "dirichlet", "quad", "quad_nan", "hmc_adapt", "hmc_adapt", "edge", "skygrid", "skygrid",
+                "multi", "multi", "fail"]
         for i in range(n_runs):
-            fam = fams[i % 10]
-            adapt = [True, False, "mixed"][(i // 10) % 3]
+            fam = fams[i % 13]
+            adapt = [True, False, "mixed"][(i // 13) % 3]
             runs.append((gen_cfg(rng, fam, adapt, rng.randint(*iters)), rng.randrange(1 << 30), f"run{i}"))
         for cfg, tseed, label in runs:
             try:
@@ -1486,7 +1663,7 @@ def run(ck: Check):
             check_records(ck, cfg, res, found, label)
             for j in range(n_before, len(found)):
                 found[j] = found[j] + (tseed,)
-            if drv:
+            if drv and not cfg.get("oracle_only"):
                 compare_run(ck, drv, cfg, res, label)
         if drv:
             tuning_cases(ck, drv, rng, 1500 if thorough else 300, found)
